@@ -294,11 +294,14 @@ fn dgram(k: u32) -> Bytes {
 }
 
 /// Await `fut`; the flag is raised the first time it returns Pending (the caller is blocked).
-async fn note_pending<T>(flag: &Cell<bool>, flag2: &Cell<bool>, fut: impl Future<Output = T>) -> T {
+async fn note_pending<T>(flag: &Cell<bool>, flag2: &Cell<bool>, count: &Cell<u64>, fut: impl Future<Output = T>) -> T {
     let mut fut: Pin<Box<dyn Future<Output = T> + '_>> = Box::pin(fut);
     std::future::poll_fn(|cx| {
         let r = fut.as_mut().poll(cx);
         if r.is_pending() {
+            if !flag.get() {
+                count.set(count.get() + 1); // counted when it blocks, not when (if ever) it resumes
+            }
             flag.set(true);
             flag2.set(true);
         }
@@ -323,10 +326,7 @@ async fn write_all(sh: &Shared, s: u32, send: &mut SendStream, data: Vec<u8>, fl
     let mut pos = 0;
     while pos < data.len() {
         let pend = Cell::new(false);
-        let BufResult(res, _) = note_pending(&pend, flag, send.write(data.slice(pos..))).await;
-        if pend.get() {
-            sh.blocked_writes.set(sh.blocked_writes.get() + 1);
-        }
+        let BufResult(res, _) = note_pending(&pend, flag, &sh.blocked_writes, send.write(data.slice(pos..))).await;
         match res {
             Ok(n) => {
                 sh.ctx.wrote(s, n as u64);
@@ -373,13 +373,10 @@ async fn writer(sh: Rc<Shared>, conn: Connection, s: u32) {
     let flag = &sh.wflag[s as usize - 1];
     let pend = Cell::new(false);
     let opened = if spec.bi {
-        note_pending(&pend, &pend, conn.open_bi_wait()).await.map(|(a, b)| (a, Some(b)))
+        note_pending(&pend, &pend, &sh.blocked_opens, conn.open_bi_wait()).await.map(|(a, b)| (a, Some(b)))
     } else {
-        note_pending(&pend, &pend, conn.open_uni_wait()).await.map(|a| (a, None))
+        note_pending(&pend, &pend, &sh.blocked_opens, conn.open_uni_wait()).await.map(|a| (a, None))
     };
-    if pend.get() {
-        sh.blocked_opens.set(sh.blocked_opens.get() + 1);
-    }
     let (mut send, recv) = match opened {
         Ok(x) => x,
         Err(e) => {
